@@ -60,7 +60,7 @@ THEOREMS = {
     'init_sizes_1101': ('initSizes_1101', ['C06', 'C02']),
     'init_sizes_1011': ('initSizes_1011', ['C06', 'C02']),
     'init_sizes_1111': ('initSizes_1111', ['C06', 'C02']),
-    'round_table': ('roundTable', ['C01', 'C05']),
+    'round_table': ('roundTable', ['C01', 'C05']), 'round_rational_table': ('roundRationalTable', ['C03']),
     # _overflow_action: flags and the dispatch on config.overflow
     'overflow_flags': ('overflowFlags', ['C04', 'C01', 'C08', 'C18']), 'overflow_action_saturate': ('overflowAction_saturate', ['C01', 'C02', 'C05']),
     'overflow_action_wrap': ('overflowAction_wrap', ['C01', 'C03']),
